@@ -74,6 +74,8 @@ def tasks(tier):
     ts += [{'part': 'delegate', 'spec': 'C12', 'task': t} for t in _c12_small()]
     from . import C18
     ts += [{'part': 'delegate', 'spec': 'C18', 'task': t} for t in C18.tasks(tier) if 'part' not in t]
+    from . import parsefile_h
+    ts += [{'part': 'delegate', 'spec': 'parsefile_h', 'task': t} for t in parsefile_h.tasks(tier)]
     return ts
 
 
@@ -179,7 +181,7 @@ def main(tier, replay=None):
         rep.inconclusive.append('%d counterexamples did not reproduce with the real binary, e.g. %s' % (len(rep.nonrepro), json.dumps(rep.nonrepro[0], default=str)[:300]))
     pr = prog()
     rep.bounds = {'lex': 'token texts of every length 0..%d matching the token regular expression read from lang.lalrpop' % MAXLEN, 'strip': 'all strings of <= 5 Unicode chars',
-                  'algebra': 'all operands a, b < 2^256 for the three primes', 'values': 'the Substitution / Phi / SwitchOp rules', 'cfg': 'all skeletons with <= 3 statements', 'desugar': '18 statement slots x 16 expression shapes, with and without a tuple'}
+                  'algebra': 'all operands a, b < 2^256 for the three primes', 'values': 'the Substitution / Phi / SwitchOp rules', 'cfg': 'all skeletons with <= 3 statements', 'desugar': '18 statement slots x 16 expression shapes, with and without a tuple', 'parse errors': 'parse_file around a stubbed parser: sources of <= 3 code points over all of Unicode, every parser outcome and span'}
     rep.assumptions = ['only panic / overflow / bounds / unbounded-work obligations of the delegated harnesses are reported here; their semantic obligations are reported under their own property',
                        'source hash ' + pr.hashes['parser'] + '/' + pr.hashes['structure']]
     rep.outside = ['the LALR automaton and every other grammar action', 'anonymous-component expansion; IR lifting of statements outside the C18 shapes', 'stack depth, memory consumption, wall-clock time', 'include handling and the file system']
